@@ -108,6 +108,22 @@ pub fn corpus(thorough: bool) -> Vec<Corpus> {
         items.extend(large_maps(c));
     }
     out.push(Corpus { family: "large-contents", items });
+    // contents that collide under weak checksums (a dedup key must not be one of those)
+    let mut items = Vec::new();
+    for c in COMPS {
+        for (_, a, b) in collision_pairs() {
+            for order in 0..2 {
+                let mut l = Logical::new(c);
+                let (x, y) = if order == 0 { (&a, &b) } else { (&b, &a) };
+                l.tiles.insert(0, x.clone());
+                l.tiles.insert(1, y.clone());
+                l.tiles.insert(5, x.clone());
+                l.tiles.insert(LAST, y.clone());
+                items.push(l);
+            }
+        }
+    }
+    out.push(Corpus { family: "weak-checksum-collisions", items });
     // metadata x compressions x 3 maps
     let ks = contents4();
     let mut items = Vec::new();
